@@ -20,6 +20,10 @@ build() {
     grep -E "^error" -A8 "$GENSIM/build.log" | head -60 >&2
     exit 2
   fi
+  # the real generator binaries (no hook cfg, no seam) for the fidelity cross-check; a failure to
+  # build them is not fatal here: the simulator has already compiled the same sources
+  (cd /repo/unic-langid-impl && CARGO_TARGET_DIR="$GENSIM/target/realbins" cargo build --offline --quiet --features binary --bins 2>>"$GENSIM/build.log") || \
+    echo "note: real generator binaries not built; fidelity cross-check will be skipped" >&2
 }
 
 case "${1:-}" in
@@ -39,7 +43,8 @@ case "${1:-}" in
         tier="${VERIF_TIER:-$1}"
         [ "$1" = thorough ] && tier=thorough
         exec "$BIN" check --tier "$tier" --seed "${VERIF_SEED:-1}" \
-          --evidence "$ROOT/evidence/C18.json" --replay-dir "$ROOT/replays" --known "$ROOT/KNOWN_FINDINGS.json"
+          --evidence "$ROOT/evidence/C18.json" --replay-dir "$ROOT/replays" --known "$ROOT/KNOWN_FINDINGS.json" \
+          --real-bins "$GENSIM/target/realbins/debug"
         ;;
       *) echo "usage: ./run.sh C18 quick|thorough|--replay <file>" >&2; exit 2 ;;
     esac
